@@ -6,6 +6,11 @@ Timers are transparent context managers; `elapsed_ms()` is an arbitrary non-nega
 `next()` is an uninterpreted choice (an entry or None) that changes nothing.
 """
 from __future__ import annotations
+
+def _new_private(model, name):
+    "a private helper the model has no contract for (e.g. extracted by a refactoring): interpreted from source"
+    from pyvc.interp import is_private_name
+    return is_private_name(name) and name not in getattr(model, 'NO_INLINE', ())
 import types
 import z3
 from pyvc import source
@@ -184,7 +189,7 @@ class TableauObj(SymVal):
                 if isinstance(v, property) and name in self.PROPS:
                     fi = source.of_function(v.fget); self.inlined[fi.key] = fi
                     return it.call_source(fi, v.fget, c, [self], {}, recv=self)
-                if isinstance(v, types.FunctionType) and name in self.INLINE:
+                if isinstance(v, types.FunctionType) and (name in self.INLINE or _new_private(self, name)):
                     fi = source.of_function(v); self.inlined[fi.key] = fi
                     return BoundSource(fi, v, c, self)
                 raise Outside(f'Tableau.{name} (no contract)')
